@@ -27,7 +27,9 @@ LEVEL_TEXT = (
     "session id) is enumerated - exhaustive per wrapper, sampled over wrappers, hence exploration. Handshakes: random X25519 "
     "pairs x password pairs (bounded number of PBKDF2 runs), SessionAuthenticate MAC and session key compared with the "
     "reference, every bit flip of the SessionResponse refused, plus full connects on the virtual loop against a reference server. "
-    "TimerNotify: MAC equality and every bit flip refused."
+    "TimerNotify: MAC equality and every bit flip refused. "
+    "Both real transports (SecureGroup with its own timer and per-call random tag, SecureSession after a real handshake with its own counter; tag and sequence sources "
+    "not pinned) wrap random frames; each wrapper is verified and rebuilt by the reference from the fields it carries and unwrapped by a second SecureGroup with the same key."
 )
 LEVEL_NOTE = (
     "Trusted: the AES block permutation, SHA-256, PBKDF2-HMAC and X25519 of `cryptography`/hashlib; vlib/refcrypto_ip.py, "
@@ -260,6 +262,114 @@ def part_wrap(ctx):
             continue
         frame = KNXIPFrame.init_from_body(RoutingIndication(raw_cemi=rng.randbytes(n)))
         wrap_case(ctx, rng.randbytes(16), rng.randrange(65536), rng.randbytes(6), rng.randbytes(6), rng.randbytes(2), frame, frame.to_knx(), "RoutingIndication", False)
+
+
+# --------------------------------------------------------------------------
+# the two real transports (their own sequence / tag sources, nothing pinned)
+# --------------------------------------------------------------------------
+def real_wrapper_case(ctx, what, key, sid, wire, plain, name, extra):
+    """A wrapper produced by a real transport, judged by the reference on the fields the wrapper itself carries."""
+    ctx.ev()
+    w = dict(extra, part="real-transport", transport=what, key=key, session_id=sid, plain=plain, body=name, wire=wire)
+    try:
+        fields, inner = ref.unwrap(key, wire, sid)
+    except ref.RefError as exc:
+        ctx.violation(
+            f"{what}-wrapper-not-verified-by-reference", dict(w, reference_error=str(exc)),
+            f"a wrapper produced by {what} does not verify under the reference with the sequence/serial/tag it carries ({exc})",
+        )
+        return None
+    if inner != plain:
+        ctx.violation(f"{what}-wrapper-decrypts-to-other-frame", dict(w, inner=inner), f"a wrapper produced by {what} decrypts (reference) to a different frame")
+    expect = ref.wrap(key, sid, fields.sequence, fields.serial, fields.tag, plain)
+    if expect != wire:
+        ctx.violation(f"{what}-wrapper-bytes-differ-from-reference", dict(w, reference=expect), f"a wrapper produced by {what} differs from the reference built from its own fields")
+    ctx.count(f"real_{what}_wrappers_verified")
+    return fields
+
+
+def part_real_transports(ctx):
+    from xknx.io.ip_secure import SecureGroup
+
+    rng = ctx.rng
+    names = [n for n in all_body_class_names() if n not in ("SecureWrapper",)]
+    n_groups = ctx.scale(6, 40)
+    per = ctx.scale(25, 60)
+    loop = new_loop()
+
+    async def main():
+        for g in range(n_groups):
+            if not ctx.mine(g):
+                continue
+            key = rng.randbytes(16)
+            sender = SecureGroup(local_addr=("10.0.0.1", 0), remote_addr=("224.0.23.12", 3671), backbone_key=key, latency_ms=1000)
+            receiver = SecureGroup(local_addr=("10.0.0.2", 0), remote_addr=("224.0.23.12", 3671), backbone_key=key, latency_ms=1000)
+            sender.secure_timer.update(rng.choice((0, rng.randrange(1 << 40))))
+            tags = set()
+            for i in range(per):
+                made = random_plain_frame(rng, rng.choice(names))
+                if made is None:
+                    continue
+                frame, plain = made
+                wire = sender.encrypt_frame(frame).to_knx()  # tag: random.randbytes per call, timer: the real SecureSequenceTimer
+                fields = real_wrapper_case(ctx, "secure-group", key, 0, wire, plain, type(frame.body).__name__, {"index": i})
+                if fields is not None:
+                    tags.add(fields.tag)
+                # a second group member with the same backbone key must unwrap it
+                ctx.ev()
+                ok, detail, inner = receive(receiver, wire)
+                if any(ref.service_of(plain) == sv.value for sv in FORBIDDEN_WRAPPED_SERVICES):
+                    continue
+                if not ok or inner.to_knx() != plain:
+                    ctx.violation(
+                        "secure-group-wrapper-refused-by-peer-with-same-key", {"part": "real-transport", "key": key, "wire": wire, "plain": plain, "outcome": detail},
+                        f"a SecureGroup with the same backbone key does not unwrap the frame another SecureGroup wrapped: {detail}",
+                    )
+                else:
+                    ctx.count("real_secure-group_peer_roundtrips")
+                if g == 0 and i == 0:
+                    ctx.sample({"secure_group_wrapper": wire, "key": key, "plain": plain})
+            if len(tags) > 1:
+                ctx.count("secure_group_runs_with_varying_tags")
+            ctx.distinct(("real-group", len(tags) > 1, g % 7))
+            sender.secure_timer.stop()
+            receiver.secure_timer.stop()
+
+    loop.run(main())
+    loop.finish()
+    # the unicast session: key from a real handshake (no device authentication -> no PBKDF2 for the response), own counter
+    if ctx.shard != 0:
+        return
+    import xknx.io.ip_secure as mod
+
+    saved = mod.derive_user_password
+    mod.derive_user_password = lambda pw: ref.user_password_key(pw)  # pure function, memoised by the reference (keeps the PBKDF2 budget)
+    try:
+        session = SecureSession(remote_addr=("10.0.0.2", 3671), user_id=2, user_password="secret")
+    finally:
+        mod.derive_user_password = saved
+    for h in range(ctx.scale(4, 20)):
+        cpriv = ref.x25519_private(rng.randbytes(32))
+        spriv = ref.x25519_private(rng.randbytes(32))
+        sid = rng.randrange(1, 65536)
+        session._private_key, session.public_key = cpriv, ref.x25519_public_bytes(cpriv)
+        spub = ref.x25519_public_bytes(spriv)
+        session.handshake(SessionResponse(secure_session_id=sid, ecdh_server_public_key=spub, message_authentication_code=bytes(16)))
+        skey = ref.session_key(spriv, session.public_key)
+        session._sequence_number = rng.choice((0, 0, rng.randrange(1 << 30)))
+        prev = None
+        for i in range(ctx.scale(20, 40)):
+            made = random_plain_frame(rng, rng.choice(names))
+            if made is None:
+                continue
+            frame, plain = made
+            wire = session.encrypt_frame(frame).to_knx()
+            fields = real_wrapper_case(ctx, "secure-session", skey, sid, wire, plain, type(frame.body).__name__, {"index": i})
+            if fields is not None:
+                if prev is not None and fields.seq_int <= prev:
+                    ctx.violation("secure-session-wrapper-sequence-not-increasing", {"part": "real-transport", "previous": prev, "this": fields.seq_int}, "consecutive wrappers of a session do not carry increasing sequence numbers")
+                prev = fields.seq_int
+        ctx.distinct(("real-session", h % 5))
 
 
 # --------------------------------------------------------------------------
@@ -498,10 +608,12 @@ def run(ctx):
         "wrappers_compared_with_reference", "roundtrips", "reference_wrappers_unwrapped", "flip_neighbourhoods_completed",
         "bitflips_header", "bitflips_session-id", "bitflips_sequence", "bitflips_serial", "bitflips_tag", "bitflips_ciphertext", "bitflips_mac",
         "keyflips", "session_id_flips", "timer_notifies_compared_with_reference", "timer_notify_flip_neighbourhoods",
+        "real_secure-group_wrappers_verified", "real_secure-group_peer_roundtrips", "secure_group_runs_with_varying_tags",
     )
     if ctx.shard == 0:
-        ctx.require("handshakes", "session_keys_compared", "session_response_flip_neighbourhoods", "wire_connects", "forged_session_response_refused_mac")
+        ctx.require("real_secure-session_wrappers_verified", "handshakes", "session_keys_compared", "session_response_flip_neighbourhoods", "wire_connects", "forged_session_response_refused_mac")
     part_wrap(ctx)
+    part_real_transports(ctx)
     part_handshake(ctx)
     part_timer_notify(ctx)
     ctx.exhaustive = False
@@ -525,6 +637,8 @@ def replay(ctx, witness):
     elif part == "connect":
         session = SecureSession(remote_addr=("10.0.0.2", 3671), user_id=witness["user_id"], user_password=witness["user_password"], device_authentication_password=witness["device_password"])
         wire_connect_case(ctx, session, witness["user_id"], witness["user_password"], witness["device_password"], h(witness["client_private"]), h(witness["server_private"]), witness["session_id"])
+    elif part == "real-transport":
+        part_real_transports(ctx)
     else:
         random.seed(0)
         part_timer_notify(ctx)
